@@ -220,10 +220,37 @@ def encodeValues (m : QMap) : Bytes :=
   let sorted := isortBy (fun a b => le a.1 b.1) m
   join [38] (sorted.flatMap fun kv => kv.2.map (encodePair kv.1))
 
+/-- `util.IsStringEmpty` = `len(strings.TrimSpace(s)) == 0`: the string consists of Unicode
+white space only (UTF-8: TAB LF VT FF CR SP, U+0085, U+00A0, U+1680, U+2000–200A, U+2028, U+2029,
+U+202F, U+205F, U+3000). -/
+def allSpace : Bytes → Bool
+  | [] => true
+  | c :: t =>
+    if c == 9 || c == 10 || c == 11 || c == 12 || c == 13 || c == 32 then allSpace t
+    else if c == 194 then
+      match t with
+      | d :: t' => (d == 133 || d == 160) && allSpace t'
+      | [] => false
+    else if c == 225 then
+      match t with
+      | d :: e :: t' => d == 154 && e == 128 && allSpace t'
+      | _ => false
+    else if c == 226 then
+      match t with
+      | d :: e :: t' =>
+        ((d == 128 && ((128 ≤ e && e ≤ 138) || e == 168 || e == 169 || e == 175)) ||
+         (d == 129 && e == 159)) && allSpace t'
+      | _ => false
+    else if c == 227 then
+      match t with
+      | d :: e :: t' => d == 128 && e == 128 && allSpace t'
+      | _ => false
+    else false
+
 def mergeRawQuery (raw : Bytes) (cq rq : QMap) : Bytes :=
   let q := mergedQuery cq rq
   if q.isEmpty then raw
-  else if raw.isEmpty then encodeValues q
+  else if allSpace raw then encodeValues q
   else raw ++ [38] ++ encodeValues q
 
 /-! ### path parameters -/
